@@ -80,7 +80,8 @@ pub fn key_of(l: &str) -> (String, String) {
     if first.len() > 1 && first.starts_with('s') && first[1..].chars().all(|c| c.is_ascii_digit()) {
         let k = it.next().unwrap_or("");
         let id = it.next().unwrap_or("");
-        if k == "cf" { return (k.to_string(), l.to_string()); }
+        if k == "cf" { return (k.to_string(), format!("{first} cf {id} {}", it.next().unwrap_or(""))); }
+        if k == "sheet" { return (k.to_string(), format!("{first} sheet")); }
         (k.to_string(), format!("{first} {k} {id}"))
     } else if first == "name" || first == "namedstyle" {
         (first.to_string(), format!("{first} {}", it.next().unwrap_or("")))
